@@ -413,3 +413,66 @@ Example C03_regex_inverts_printer_predicate_index_nonvacuous :
   no_start_before _ where_at (B "CREATE UNIQUE INDEX `i1` ON `t` (`a` DESC, (a + 1)) WHERE a > 0") (pred (List.length (index_head t i))) = true /\
   index_predicate (B "CREATE UNIQUE INDEX `i1` ON `t` (`a` DESC, (a + 1)) WHERE a > 0") = Some (B "a > 0").
 Proof. vm_compute. repeat split; reflexivity. Qed.
+
+(** 7. A disturbed inspection fails, it does not export less.  The inspection reads the catalogue with a
+    sequence of statements (schema list, table list + CREATE text, and per table pragma_table_xinfo, the index
+    list, one index-info statement per index, the foreign-key list); any of them can fail ("database is
+    locked").  The inspector is modelled as a program over reads ([inspect_prog], Sqlite/ExportFault.v) in a
+    language without an operator that catches a failed read; [run] executes it against the catalogue of [d]
+    with an arbitrary fault plan ([fault n] = the n-th statement of the process fails).  For EVERY database
+    and EVERY fault plan: the result is an error iff a statement the undisturbed inspection issues is hit, and
+    otherwise it is exactly [inspect d] (the shared inspection model) -- never a smaller schema.  With
+    [C03_stable]: inspection is a function of the catalogue when every read succeeds.
+    What the theorem cannot see is an implementation that leaves this language (retrying
+    pragma_table_xinfo as pragma_table_info, ignoring the error of the index-info statement): that is the
+    tie and the oracle of stage `fault` -- every statement of the undisturbed inspection is failed in turn, in
+    process (ExecQuerier around sqlite.Open) and through the CLI (sqlitefault://); observed: number of
+    statements = [reads] of the model on the same catalogue shape, and every single fault ends in an error. *)
+From Atlas Require Import Sqlite.ExportFault.
+Theorem C03_disturbed_inspection :
+  forall d fault,
+  run _ _ (cat_of d) fault 0 inspect_prog =
+  if existsb fault (seq 0 (reads _ _ (cat_of d) inspect_prog)) then None else Some (inspect d).
+Proof. exact inspect_disturbed. Qed.
+Print Assumptions C03_disturbed_inspection.
+
+(** ... in the form of the oracle: exit non-zero, or the undisturbed export; and a fault on any statement the
+    inspection issues is an error *)
+Theorem C03_disturbed_inspection_fails_or_same :
+  forall d fault,
+  (run _ _ (cat_of d) fault 0 inspect_prog = None \/ run _ _ (cat_of d) fault 0 inspect_prog = Some (inspect d)) /\
+  (forall k, k < reads _ _ (cat_of d) inspect_prog -> fault k = true ->
+     run _ _ (cat_of d) fault 0 inspect_prog = None) /\
+  run _ _ (cat_of d) (fun _ => false) 0 inspect_prog = Some (inspect d).
+Proof.
+  intros d fault. split; [|split].
+  - rewrite inspect_disturbed. destruct (existsb _ _); auto.
+  - intros k Hk Hf. exact (run_fault_detected _ _ (cat_of d) inspect_prog fault 0 k Hk Hf).
+  - rewrite run_undisturbed, inspect_prog_eval. reflexivity.
+Qed.
+Print Assumptions C03_disturbed_inspection_fails_or_same.
+
+(** non-vacuity: the witness database of C03_sql is inspected with 6 statements (one table, one index) *)
+Example C03_disturbed_nonvacuous : reads _ _ (cat_of w_db) inspect_prog = 6%nat.
+Proof. vm_compute. reflexivity. Qed.
+
+(** 7b. The contract of 7 is FALSE for the result-set loops of sql/sqlite/inspect.go when the failure arrives
+    while the rows are read (which is where go-sqlite3 reports "database is locked": from rows.Next(), not
+    from QueryContext): none of the six [for rows.Next()] loops looks at rows.Err().  Model of the loop with
+    and without the check; without it, a table-list statement that breaks off before its first row is read
+    as "no tables" -- not an error, and not the undisturbed answer -- for every non-empty catalogue.
+    Reproduced on the real driver with a second connection holding the database during one statement
+    (stage fault, lock mode: 80 of 146 locked inspections export less without an error; known finding
+    C03-rows-err-unchecked, fix proposal notes/fixes/C03-rows-err.diff). *)
+Theorem C03_disturbed_inspection_rows_refuted :
+  forall d, inspect d <> [] ->
+  read_rows_unchecked (inspect d) (Some 0%nat) = Some [] /\
+  read_rows_unchecked (inspect d) (Some 0%nat) <> None /\
+  read_rows_unchecked (inspect d) (Some 0%nat) <> Some (inspect d) /\
+  (forall break, read_rows_checked (inspect d) break = None \/ read_rows_checked (inspect d) break = Some (inspect d)).
+Proof.
+  intros d H. destruct (inspect d) as [|x l] eqn:E; [contradiction|].
+  destruct (read_rows_unchecked_refuted x l) as (A & B & C).
+  split; [exact A|]. split; [exact B|]. split; [exact C|]. intro b. apply read_rows_checked_fails_or_same.
+Qed.
+Print Assumptions C03_disturbed_inspection_rows_refuted.
